@@ -104,9 +104,26 @@ impl<'a> OnDiskDirEntry<'a> {
         }
     }
 
+    /// The first byte of a deleted entry.
+    pub(crate) const DELETED_MARKER: u8 = 0xE5;
+
+    /// Stored in the first byte of a name instead of 0xE5, which would make
+    /// the entry look deleted.
+    pub(crate) const KANJI_LEAD_BYTE: u8 = 0x05;
+
+    /// The 11 name bytes this entry stands for.
+    fn name_bytes(&self) -> [u8; 11] {
+        let mut name = [0u8; 11];
+        name.copy_from_slice(&self.data[0..11]);
+        if name[0] == Self::KANJI_LEAD_BYTE {
+            name[0] = Self::DELETED_MARKER;
+        }
+        name
+    }
+
     /// Does this on-disk entry match the given filename?
     pub fn matches(&self, sfn: &ShortFileName) -> bool {
-        self.data[0..11] == sfn.contents
+        self.name_bytes() == sfn.contents
     }
 
     /// Which cluster, if any, does this file start at? Assumes this is from a FAT32 volume.
@@ -154,7 +171,7 @@ impl<'a> OnDiskDirEntry<'a> {
             entry_block,
             entry_offset,
         };
-        result.name.contents.copy_from_slice(&self.data[0..11]);
+        result.name.contents = self.name_bytes();
         result
     }
 }
